@@ -51,6 +51,10 @@ def run(report, db, tier):
                      'immediately, default version, handled')
     shared.eof_fallback_ps(report, R5, db, S)
     plain_status(report, db, S, M, P)
+    R9 = report.rule('R09.9', 'the first frames of every connection are the '
+                     'handshake and what connect()/status() queue after it: '
+                     '_connect starts from an empty outgoing queue')
+    shared.fresh_connection_state(report, R9, db, S, M, ('queue',))
     R7 = report.rule('R09.7', 'status arms: compared names exist in the '
                      'status table, fields read exist')
     sr = db.get_class(CONN, 'StatusReactor')
